@@ -4,8 +4,8 @@ from speaker_common import run_speaker
 
 def main(run):
     run_speaker(run, ["C15_ExportAsIfFresh", "C15_AddPathAsIfFresh", "C15_LocRibAsIfFresh", "C02_AdjInExact"], policy=True, design=None,
-                pairs=({"rr": '{"dir"}', "addpath": '{"dir"}'} if run.tier != "thorough" else
-                       {g: '{"dir", "both"}' for g in ("ebgp3", "mixed", "rr", "addpath")}))
+                pairs=({"rr": '{"dir", "refresh"}', "addpath": '{"dir", "refresh"}'} if run.tier != "thorough" else
+                       {g: '{"dir", "both", "refresh"}' for g in ("ebgp3", "mixed", "rr", "addpath")}))
 
 
 RULE = ("schedules = SpeakerGen.tla with WithPolicy: route events interleaved with SetImp/SetExp over the closed "
